@@ -416,6 +416,13 @@ class World(object):
                 ast.fix_missing_locations(new)
                 self.use('run_in_executor')
                 return self.call(ex, new)
+        if isinstance(node.func, ast.Attribute) and node.func.attr == 'append' and isinstance(node.func.value, ast.Name) \
+                and isinstance(ex.env.get(node.func.value.id), (VSeq, VList)) and len(node.args) == 1 and ex.mode == 'code':
+            self.use('list.append')
+            cur = ex.env[node.func.value.id]
+            item = ex.eval(node.args[0])
+            ex.env[node.func.value.id] = self.list_append(ex, cur, item)
+            return NONE
         f = ex.eval(node.func)
         args = []
         for a in node.args:
@@ -452,6 +459,22 @@ class World(object):
             inner = ex.nonnull(f, 'call')
             return self.apply(ex, inner, args, kwargs, node)
         raise Unsupported('call of %r at %s' % (f, ex.where()))
+
+    def list_append(self, ex, cur, item):
+        if isinstance(cur, VList):
+            return VList(cur.items + [item])
+        if cur.comps is None:
+            raise Unsupported('append to a derived list')
+        flat = flatten_value(item)
+        if len(flat) != len(cur.comps):
+            raise Unsupported('append: element shape does not match the list')
+        comps = [z3.Store(c, cur.length, t) for c, t in zip(cur.comps, flat)]
+        n = ex.fresh_name('appended')
+        new = ex.mk_seq(cur.etype, n, cur.length + 1)
+        # re-point the fresh arrays at the stored ones
+        for fresh_c, stored in zip(new.comps, comps):
+            ex.assume(fresh_c == stored)
+        return new
 
     def contract_for_repo_func(self, f):
         modshort, qual = f.info
@@ -523,6 +546,10 @@ class World(object):
         if name.startswith('exceptions:') or name in self.BUILTIN_CLASSES or name in ('struct.error', 'asyncio.TimeoutError', 'usb1.USBError', 'io.UnsupportedOperation'):
             payload = args[0] if args else None
             return VExc(self.exc_name(cls), payload)
+        if name == 'lib:namedtuple':
+            if kwargs:
+                raise Unsupported('namedtuple keyword construction')
+            return VTuple(args)
         if name == 'lib:Lock':
             return VLock(None)
         if name == 'lib:Queue':
@@ -936,6 +963,19 @@ class World(object):
         raise Unsupported('lambda in contract')
 
 
+def flatten_value(v):
+    if isinstance(v, VTuple):
+        out = []
+        for x in v.items:
+            out.extend(flatten_value(x))
+        return out
+    if isinstance(v, (VInt, VBytes, VStr, VBool, VReal)):
+        return [v.term]
+    if isinstance(v, VOpaque) and v.term is not None:
+        return [v.term]
+    raise Unsupported('cannot flatten %r' % (v,))
+
+
 def wrap_term(t):
     s = t.sort()
     if s == IntS:
@@ -1303,6 +1343,19 @@ def bi_gethostname(w, ex, args, kwargs, node):
     return VStr(z3.Const(ex.fresh_name('hostname'), Bytes))
 
 
+def bi_fstat(w, ex, args, kwargs, node):
+    w.use('os')
+    if ex.choose('fstat-raises'):
+        raise RaiseSig(VExc('OSError'))
+    size = z3.Int(ex.fresh_name('st_size'))
+    ex.assume(size >= 0)
+    return VObj('StatResult', {'st_size': VInt(size)})
+
+
+def bi_namedtuple(w, ex, args, kwargs, node):
+    return VClass('lib:namedtuple')
+
+
 def bi_noop(w, ex, args, kwargs, node):
     return NONE
 
@@ -1311,7 +1364,7 @@ BUILTINS = {
     'len': bi_len, 'min': _minmax(True), 'max': _minmax(False), 'int': bi_int, 'bool': bi_bool, 'bytes': bi_bytes,
     'bytearray': bi_bytearray, 'isinstance': bi_isinstance, 'sum': bi_sum, 'hasattr': bi_hasattr, 'ord': bi_ord, 'str': bi_str,
     'struct.pack': bi_struct_pack, 'struct.unpack': bi_struct_unpack, 'struct.calcsize': bi_struct_calcsize,
-    'time.time': bi_time_time, 'contextmanager': bi_contextmanager, 'socket.gethostname': bi_gethostname,
+    'time.time': bi_time_time, 'contextmanager': bi_contextmanager, 'socket.gethostname': bi_gethostname, 'os.fstat': bi_fstat, 'namedtuple': bi_namedtuple,
 }
 
 
